@@ -21,6 +21,20 @@ Fixpoint toy_dec (s : bytes) : bytes :=
 
 Definition toy_dec_all (_ : unit) (s : bytes) : bytes := toy_dec s.
 Definition toy_dec_stream (_ : unit) (chunks : list bytes) : bytes := toy_dec (concat chunks).
+
+(* before a source error: complete characters only, a pending lead byte is withheld *)
+Fixpoint toy_part (s : bytes) : bytes :=
+  match s with
+  | [] => []
+  | a :: r =>
+      if is_hi a then
+        match r with
+        | _ :: r' => "W"%byte :: toy_part r'
+        | [] => []
+        end
+      else a :: toy_part r
+  end.
+Definition toy_dec_partial (_ : unit) (chunks : list bytes) : bytes := toy_part (concat chunks).
 Definition toy_find (b : bytes) : option unit :=
   if contains_sub (bs "<m>") b then Some tt else None.
 
@@ -29,11 +43,11 @@ Proof. intros e chunks. reflexivity. Qed.
 
 Definition zeros (n : nat) : bytes := repeat x00 n.
 
-Definition pinned_run (chunks : list bytes) (bufs : list bytes) : bytes * bool :=
-  read_all_pinned toy_dec_all toy_dec_stream toy_find bufs (fresh_adrc chunks false []).
+Definition pinned_run (chunks : list bytes) (bufs : list bytes) : bytes * rerr :=
+  read_all_pinned toy_dec_all toy_dec_stream toy_dec_partial toy_find bufs (fresh_adrc chunks false false []).
 
-Definition repaired_run (chunks : list bytes) (sizes : list nat) : bytes * bool :=
-  read_all toy_dec_stream toy_find sizes (BSniff (fresh_adrc chunks false [])).
+Definition repaired_run (chunks : list bytes) (sizes : list nat) : bytes * rerr :=
+  read_all toy_dec_stream toy_dec_partial toy_find sizes (BSniff (fresh_adrc chunks false false [])).
 
 (* 1. a body shorter than the caller's buffer is padded to len(p): here with the NULs of a fresh buffer *)
 Definition w1_chunks : list bytes := [bs "<m>ab"].
@@ -52,48 +66,48 @@ Definition w3_bufs : list bytes := [bs "zzz<m>zz"; bs "zzz<m>zz"; bs "zzz<m>zz"]
 Definition third_result (chunks : list bytes) (o : bytes) : Prop :=
   o <> concat chunks /\ forall e : unit, o <> toy_dec_all e (concat chunks).
 
-Lemma pinned_w1 : exists o, pinned_run w1_chunks w1_bufs = (o, true) /\ third_result w1_chunks o.
+Lemma pinned_w1 : exists o, pinned_run w1_chunks w1_bufs = (o, EEOF) /\ third_result w1_chunks o.
 Proof.
   eexists. split; [vm_compute; reflexivity|]. split; [|intros []]; vm_compute; discriminate.
 Qed.
 
-Lemma pinned_w2 : exists o, pinned_run w2_chunks w2_bufs = (o, true) /\ third_result w2_chunks o.
+Lemma pinned_w2 : exists o, pinned_run w2_chunks w2_bufs = (o, EEOF) /\ third_result w2_chunks o.
 Proof.
   eexists. split; [vm_compute; reflexivity|]. split; [|intros []]; vm_compute; discriminate.
 Qed.
 
-Lemma pinned_w3 : exists o, pinned_run w3_chunks w3_bufs = (o, true) /\ third_result w3_chunks o.
+Lemma pinned_w3 : exists o, pinned_run w3_chunks w3_bufs = (o, EEOF) /\ third_result w3_chunks o.
 Proof.
   eexists. split; [vm_compute; reflexivity|]. split; [|intros []]; vm_compute; discriminate.
 Qed.
 
 (* the repaired machine on the same inputs *)
 Lemma repaired_w123 :
-  repaired_run w1_chunks [8; 8; 8] = (bs "<m>ab", true) /\
-  repaired_run w2_chunks [4; 4; 4] = (bs "<m>Wz", true) /\
-  repaired_run w3_chunks [8; 8; 8] = ("a"%byte :: [xe4; xb8], true).
+  repaired_run w1_chunks [8; 8; 8] = (bs "<m>ab", EEOF) /\
+  repaired_run w2_chunks [4; 4; 4] = (bs "<m>Wz", EEOF) /\
+  repaired_run w3_chunks [8; 8; 8] = ("a"%byte :: [xe4; xb8], EEOF).
 Proof. vm_compute. repeat split. Qed.
 
 Theorem two_results_only_pinned_refuted :
   exists (enc : Type) (dec_all : enc -> bytes -> bytes) (dec_stream : enc -> list bytes -> bytes)
-         (find_encoding : bytes -> option enc),
+         (dec_partial : enc -> list bytes -> bytes) (find_encoding : bytes -> option enc),
     decoder_ok dec_all dec_stream /\
     (* NUL padding *)
     (exists chunks bufs o,
-        read_all_pinned dec_all dec_stream find_encoding bufs (fresh_adrc chunks false []) = (o, true) /\
+        read_all_pinned dec_all dec_stream dec_partial find_encoding bufs (fresh_adrc chunks false false []) = (o, EEOF) /\
         o <> concat chunks /\ (forall e, o <> dec_all e (concat chunks)) /\
         exists e, o = dec_all e (concat chunks) ++ [x00; x00; x00]) /\
     (* character cut by the first read *)
     (exists chunks bufs o,
-        read_all_pinned dec_all dec_stream find_encoding bufs (fresh_adrc chunks false []) = (o, true) /\
+        read_all_pinned dec_all dec_stream dec_partial find_encoding bufs (fresh_adrc chunks false false []) = (o, EEOF) /\
         o <> concat chunks /\ (forall e, o <> dec_all e (concat chunks))) /\
     (* stale bytes of the caller's buffer trigger a declaration the body does not contain *)
     (exists chunks bufs o,
-        read_all_pinned dec_all dec_stream find_encoding bufs (fresh_adrc chunks false []) = (o, true) /\
+        read_all_pinned dec_all dec_stream dec_partial find_encoding bufs (fresh_adrc chunks false false []) = (o, EEOF) /\
         (forall b, find_encoding b <> None -> forall rest, concat chunks <> b ++ rest) /\
         o <> concat chunks /\ (forall e, o <> dec_all e (concat chunks))).
 Proof.
-  exists unit, toy_dec_all, toy_dec_stream, toy_find. split; [exact toy_decoder_ok|].
+  exists unit, toy_dec_all, toy_dec_stream, toy_dec_partial, toy_find. split; [exact toy_decoder_ok|].
   split; [|split].
   - exists w1_chunks, w1_bufs. destruct pinned_w1 as [o [H [A B]]]. exists o.
     repeat split; auto. exists tt. revert H. vm_compute. intros H; inversion H. reflexivity.
@@ -105,4 +119,54 @@ Proof.
     cbn [w3_chunks concat app] in E.
     destruct b as [|b0 [|b1 [|b2 [|b3 b]]]]; cbn [app] in E; try discriminate;
       inversion E; subst; vm_compute; reflexivity.
+Qed.
+
+(* ---------- the PINNED guard (response header Accept-Encoding instead of Content-Encoding) ---------- *)
+
+Definition toy_parse (ct : bytes) : ct_parse :=
+  if contains_sub (bs "charset=toy") ct then PCharset (bs "toy") else PNoCharset.
+Definition toy_lookup (v : bytes) : option unit := if bytes_eqb v (bs "toy") then Some tt else None.
+
+Definition guard_body : list bytes := [bs "ab" ++ [xe4; xb8]].
+Definition guard_ct : bytes := bs "text/html; charset=toy".
+
+(* what the pinned transport installed, read to the end *)
+Definition respond_pinned_guard (resp_ae : bytes) (chunks : list bytes) (sizes : list nat) : bytes * rerr :=
+  read_all toy_dec_stream toy_dec_partial toy_find sizes
+           (open_body toy_dec_stream toy_dec_partial (decide_pinned toy_parse toy_lookup false SelDefault resp_ae guard_ct) chunks false false []).
+
+Theorem guard_pinned_refuted :
+  exists (enc : Type) (dec_all : enc -> bytes -> bytes) (dec_stream dec_partial : enc -> list bytes -> bytes)
+         (find_encoding : bytes -> option enc) (parse_ct : bytes -> ct_parse)
+         (lookup_charset : bytes -> option enc),
+    decoder_ok dec_all dec_stream /\
+    exists ct v e chunks sizes,
+      parse_ct ct = PCharset v /\ is_utf8_label (to_lower v) = false /\ lookup_charset (to_lower v) = Some e /\
+      selected SelDefault ct = true /\
+      (* (a) Accept-Encoding on the response, body not content-encoded: the repaired guard decodes,
+             the pinned one left the declared charset unapplied *)
+      (exists resp_ae o,
+          resp_ae <> [] /\
+          respond dec_stream dec_partial find_encoding parse_ct lookup_charset false SelDefault [] ct chunks false false [] sizes
+            = (dec_all e (concat chunks), EEOF) /\
+          read_all dec_stream dec_partial find_encoding sizes
+            (open_body dec_stream dec_partial (decide_pinned parse_ct lookup_charset false SelDefault resp_ae ct) chunks false false [])
+            = (o, EEOF) /\
+          o = concat chunks /\ o <> dec_all e (concat chunks)) /\
+      (* (b) body still content-encoded, no Accept-Encoding: the pinned guard transcoded it *)
+      (exists resp_ce o,
+          resp_ce <> [] /\
+          respond dec_stream dec_partial find_encoding parse_ct lookup_charset false SelDefault resp_ce ct chunks false false [] sizes
+            = (concat chunks, EEOF) /\
+          read_all dec_stream dec_partial find_encoding sizes
+            (open_body dec_stream dec_partial (decide_pinned parse_ct lookup_charset false SelDefault [] ct) chunks false false [])
+            = (o, EEOF) /\
+          o <> concat chunks).
+Proof.
+  exists unit, toy_dec_all, toy_dec_stream, toy_dec_partial, toy_find, toy_parse, toy_lookup.
+  split; [exact toy_decoder_ok|].
+  exists guard_ct, (bs "toy"), tt, guard_body, [8; 8; 8].
+  repeat split; try (vm_compute; reflexivity).
+  - exists (bs "gzip"). eexists. repeat split; try (vm_compute; reflexivity); vm_compute; discriminate.
+  - exists (bs "x-custom"). eexists. repeat split; try (vm_compute; reflexivity); vm_compute; discriminate.
 Qed.
